@@ -9,7 +9,7 @@ t0 = time.time()
 os.environ.setdefault("PYTHONPATH", vlib.REPO)
 sys.path.insert(0, vlib.REPO)
 # regenerate translator outputs (coq/Gen/*.v are never committed) so that files depending on them build
-for mod in ("c01", "c02", "c04", "c05", "c06", "c07", "c08", "c09", "c10", "c11", "c12", "c13", "c18", "c19", "c20"):
+for mod in ("c01", "c02", "c04", "c05", "c06", "c07", "c08", "c09", "c10", "c11", "c12", "c13", "c14", "c18", "c19", "c20"):
     try:
         m = importlib.import_module(mod)
         if hasattr(m, "regen"):
